@@ -25,6 +25,12 @@ func VerifC05Fee() {
 	first, last := vMemberAcct(0), vMemberAcct(n-1)
 	preOwner, preFirst, preLast := balanceOf(owner), balanceOf(first), balanceOf(last)
 	vSign(vAlphabetAcct(), alpha)
+	if vParam(2) == 2 { // records of a committee-owned domain need the committee's witness as well
+		vSign(vCommitteeAcct(), true)
+		if vEq(vCommitteeAcct(), vAlphabetAcct()) { // committees of 1 or 4: that IS the Alphabet account
+			alpha = true
+		}
+	}
 	var done bool
 	if named {
 		done, _ = vInvoke("container", "putNamed", blob, vBytes("sig", 64), vKey("owner"), []byte{}, "mycnr", "")
